@@ -1,7 +1,7 @@
 #!/bin/bash
 # tools/seedmatrix.sh [tier] [ids...]: run each seeded change in /verif/seeded/<dir>/patch.diff against the check of the
 # property it breaks (meta.json "property"), in a scratch worktree of /repo; prints one line per seed: caught / MISSED.
-# A seed is "caught" only if the check exits 1 AND prints a VIOLATION line.
+# PROP=Cyy overrides the property whose check is run (cross-detection). A seed is "caught" only if the check exits 1 AND prints a VIOLATION line.
 set +u
 TIER=${1:-quick}; shift
 IDS=${@:-$(ls /verif/seeded)}
@@ -9,19 +9,19 @@ export GOFLAGS=-mod=mod GOPROXY=off
 OUT=/tmp/seedmatrix; mkdir -p $OUT
 one() {
   d=$1
-  prop=$(python3 -c "import json;print(json.load(open('/verif/seeded/$d/meta.json'))['property'])")
-  wt=/tmp/sm-$d
+  prop=${PROP:-$(python3 -c "import json;print(json.load(open('/verif/seeded/$d/meta.json'))['property'])")}
+  wt=/tmp/sm-$d-$prop
   git -C /repo worktree remove --force $wt >/dev/null 2>&1; rm -rf $wt
   git -C /repo worktree add -q --detach $wt HEAD >/dev/null 2>&1 || { echo "$d worktree failed"; return; }
-  if ! git -C $wt apply /verif/seeded/$d/patch.diff 2>$OUT/$d.apply; then echo "$d ($prop) PATCH-DOES-NOT-APPLY"; git -C /repo worktree remove --force $wt; return; fi
+  if ! git -C $wt apply /verif/seeded/$d/patch.diff 2>$OUT/$d-$prop.apply; then echo "$d ($prop) PATCH-DOES-NOT-APPLY"; git -C /repo worktree remove --force $wt; return; fi
   s=$(date +%s)
-  (cd /verif && VERIF_REPO=$wt timeout 3000 ./check $prop $TIER > $OUT/$d.log 2>&1); rc=$?
-  v=$(grep -c '^VIOLATION' $OUT/$d.log); nf=$(grep -c 'no-failing-input-found' $OUT/$d.log)
+  (cd /verif && VERIF_REPO=$wt timeout 3000 ./check $prop $TIER > $OUT/$d-$prop.log 2>&1); rc=$?
+  v=$(grep -c '^VIOLATION' $OUT/$d-$prop.log); nf=$(grep -c 'no-failing-input-found' $OUT/$d-$prop.log)
   if [ $rc -eq 1 ] && [ $v -gt 0 ]; then r="caught (violations=$v, without-input=$nf)"; else r="MISSED rc=$rc"; fi
   echo "$d ($prop) $TIER: $r $(( $(date +%s)-s ))s"
   git -C /repo worktree remove --force $wt >/dev/null 2>&1; rm -rf $wt
   rm -rf /verif/.build/harness-$(python3 -c "import hashlib;print(hashlib.sha1('$wt'.encode()).hexdigest()[:8])") /verif/.build/bin-$(python3 -c "import hashlib;print(hashlib.sha1('$wt'.encode()).hexdigest()[:8])")
 }
-export -f one; export TIER OUT
+export -f one; export TIER OUT PROP
 printf "%s\n" $IDS | xargs -P 4 -I{} bash -c 'one {}'
 git -C /repo worktree prune
